@@ -4,6 +4,7 @@ import (
 	"fmt"
 	"go/token"
 	"go/types"
+	"strings"
 
 	"golang.org/x/tools/go/ssa"
 
@@ -543,6 +544,13 @@ func checkC12(p *core.Program, r *core.Report) {
 	r.Rule(R8, "in package ws no function returns on some path with a mutex it acquired still locked (unless a deferred unlock covers it): a writer that leaves with the enqueue mutex held makes every later write block forever instead of returning the closed error")
 	checkLockLeaks(p, r, R8, a.fns)
 	r.Floor(R8, 3)
+
+	const R9 = "C12.R9 close-routine-always-releases"
+	r.Rule(R9, "every path through the close routine closes the stop/escape channel and the socket (shared with C13.R1): an early return before close(closeChannel) leaves writers blocked on the full queue for ever")
+	importRules(p, r, "C13", map[string]string{"C13.R1 close-routine-releases": R9}, nil)
+	const R10 = "C12.R10 connection-fields-stable"
+	r.Rule(R10, "the fields of the websocket connection obey the lockset discipline (shared with C20.R1): in particular the socket field is never reassigned after construction - the pumps check the closed flag, then take the write mutex, then use the socket, so clearing it in between is a nil dereference in the pump")
+	importRules(p, r, "C20", map[string]string{"C20.R1 consistent-lockset": R10}, func(key string) bool { return strings.HasPrefix(key, "ws.WebsocketConnection.") })
 }
 
 // checkLockLeaks: may-lockset (union over paths) at every return of every function must be covered by deferred unlocks.
@@ -1022,6 +1030,82 @@ func checkC13(p *core.Program, r *core.Report) {
 
 	// ---- R4 ship reaction
 	checkShipReaction(p, r, R4)
+
+	// ---- R6 liveness: only received traffic extends the read deadline
+	const R6 = "C13.R6 liveness-deadline"
+	r.Rule(R6, "the read deadline of the socket is set only by the read pump itself and by the pong handler it installs: a peer that vanished silently is detected solely by that deadline expiring, so extending it from the sending side (e.g. after each ping, whose period is shorter than the pong wait) means the loss is never reported, the pumps never end and the socket is never closed")
+	nrd := 0
+	var pongHandlers []*ssa.Function
+	for _, fn := range a.fns {
+		core.EachInstr(fn, func(in ssa.Instruction) {
+			if core.IsStaticCall(in, "(*github.com/gorilla/websocket.Conn).SetPongHandler") {
+				if cl := core.ClosureArg(core.Common(in).Args[1]); cl != nil {
+					pongHandlers = append(pongHandlers, cl)
+				}
+			}
+		})
+	}
+	isReadPump := func(fn *ssa.Function) bool {
+		// the function that reads from the socket in a loop (directly or through a helper)
+		mayRead := core.NewMay(p, false, func(in ssa.Instruction) bool {
+			return core.IsStaticCall(in, "(*github.com/gorilla/websocket.Conn).ReadMessage") || core.IsStaticCall(in, "(*github.com/gorilla/websocket.Conn).NextReader")
+		})
+		return mayRead.Fn(fn)
+	}
+	for _, fn := range a.fns {
+		fn := fn
+		core.EachInstr(fn, func(in ssa.Instruction) {
+			if !core.IsStaticCall(in, "(*github.com/gorilla/websocket.Conn).SetReadDeadline") {
+				return
+			}
+			nrd++
+			key := "read deadline set in " + p.FnName(fn)
+			var recvSide func(g *ssa.Function, depth int) bool
+			recvSide = func(g *ssa.Function, depth int) bool {
+				if isReadPump(core.Outermost(g)) {
+					return true
+				}
+				for _, ph := range pongHandlers {
+					if g == ph || core.NestedIn(g, ph) {
+						return true
+					}
+				}
+				sites := gCallSites[g]
+				if depth == 0 || len(sites) == 0 {
+					return false
+				}
+				for _, cs := range sites {
+					if !recvSide(cs.Parent(), depth-1) {
+						return false
+					}
+				}
+				return true
+			}
+			okSite := recvSide(fn, 2)
+			if okSite {
+				r.OK(R6, key, p.Pos(in.Pos()), "on the receiving side (read pump / pong handler)")
+			} else {
+				r.Fail(R6, key, p.Pos(in.Pos()), "the read deadline is extended from a function that is not on the receiving side: a silently dead peer is never detected")
+			}
+		})
+	}
+	if nrd == 0 || len(pongHandlers) == 0 {
+		r.Fail(R6, "read deadline / pong handler", "", "no read deadline or no pong handler is installed: a silently dead transport is never noticed")
+	}
+
+	// ---- R7 the local close path does not call back upward
+	const R7 = "C13.R7 no-report-from-local-close"
+	r.Rule(R7, "no ReportConnectionError is reachable from CloseDataConnection: the SHIP layer calls it from inside its close-once, and a report from there re-enters CloseConnection (sync.Once is not re-entrant: the close never finishes and the end is never reported)")
+	if cdc := p.Method("ws", a.typ.Obj().Name(), "CloseDataConnection"); cdc != nil {
+		wsLocal := func(f *ssa.Function) bool { return p.PkgShort(f) == "ws" && f.Blocks != nil }
+		if core.MayReachCtx(cdc, wsLocal, func(in ssa.Instruction) bool { return core.IsInvokeOf(in, a.mReport) }, 4) {
+			r.Fail(R7, tn+" CloseDataConnection never reports", p.Pos(cdc.Pos()), "a path from CloseDataConnection reaches ReportConnectionError (e.g. the close frame is written with the error-handling writer): when that write fails the SHIP layer's close-once is re-entered and deadlocks")
+		} else {
+			r.OK(R7, tn+" CloseDataConnection never reports", p.Pos(cdc.Pos()), "no upward callback on the local close path")
+		}
+	} else {
+		r.Unresolved(R7, "CloseDataConnection of the websocket connection")
+	}
 }
 
 // checkShipReaction: the SHIP layer's ReportConnectionError reaches CloseConnection on every path (C13.R4, C03.R8).
@@ -1110,9 +1194,32 @@ func checkWriteFailureReported(p *core.Program, r *core.Report, a *wsAnchors, ru
 					v, truth := core.Truth(i.Cond, idx)
 					return truth && a.flagRead(v) // the connection was closed meanwhile: nothing to report
 				}
+				// a return that hands the very error to the caller delegates the handling (the caller's own test
+				// of it is an obligation of its own)
+				delegates := func(in ssa.Instruction) bool {
+					ret, ok := in.(*ssa.Return)
+					if !ok {
+						return false
+					}
+					for i := range ret.Results {
+						rv := core.ResultOf(ret, i)
+						if rv == ssa.Value(call) {
+							return true
+						}
+						if phi, ok := rv.(*ssa.Phi); ok {
+							for _, e := range phi.Edges {
+								if e == ssa.Value(call) {
+									return true
+								}
+							}
+						}
+					}
+					return false
+				}
+				notDelegating := func(in ssa.Instruction) bool { return core.IsReturn(in) && !delegates(in) }
 				if !mustRep.Instr(first) {
-					bad = core.PathSearch(fn, first, core.IsReturn, mustRep.Instr, closedEdge)
-					if core.IsReturn(first) {
+					bad = core.PathSearch(fn, first, notDelegating, mustRep.Instr, closedEdge)
+					if notDelegating(first) {
 						bad = first
 					}
 				}
@@ -1258,7 +1365,9 @@ func checkTransportWrites(p *core.Program, r *core.Report, a *wsAnchors, li *cor
 		core.EachInstr(fn, func(in ssa.Instruction) {
 			switch core.CalleeName(core.Common(in)) {
 			case "(*github.com/gorilla/websocket.Conn).WriteMessage", "(*github.com/gorilla/websocket.Conn).WriteControl",
-				"(*github.com/gorilla/websocket.Conn).NextWriter", "(*github.com/gorilla/websocket.Conn).WriteJSON", "(*github.com/gorilla/websocket.Conn).WritePreparedMessage":
+				"(*github.com/gorilla/websocket.Conn).NextWriter", "(*github.com/gorilla/websocket.Conn).WriteJSON", "(*github.com/gorilla/websocket.Conn).WritePreparedMessage",
+				"(*github.com/gorilla/websocket.Conn).SetWriteDeadline", "(*github.com/gorilla/websocket.Conn).EnableWriteCompression", "(*github.com/gorilla/websocket.Conn).SetCompressionLevel":
+				// gorilla: "no more than one goroutine calls the write methods (NextWriter, SetWriteDeadline, WriteMessage, WriteJSON, EnableWriteCompression, SetCompressionLevel) concurrently"
 			default:
 				return
 			}
